@@ -1296,6 +1296,129 @@ package query
 //@   loop 3 invariant 0 <= $i && $i <= len(view.RecordSet[i]) && forall(c, 0, $i, fields[c].Contents == fieldText(view.RecordSet[i][c][0], options.ScientificNotation))
 //@   loop 3 modifies fields[*]
 
+// C02: the same for the fixed-length and LTSV encoders: the records handed to the dependency's writer are the header
+// (where the format has one) and then record k as the k-th record, field j holding the text of cell j, and success
+// means that every record was handed over. (Automatic positions: the rows are collected in a list first; the list has
+// exactly one slot per line that is written, so no blank line is ever added.)
+//@ ghost var fixedRecordsWritten int
+//@ func go-text/fixedlen.NewField
+//@   trusted assumed: constructor of the dependency (go-text/fixedlen): stores its arguments
+//@   ensures result.Contents == contents && result.Alignment == alignment
+//@   modifies nothing
+//@ func go-text/fixedlen.NewMeasure
+//@   trusted assumed: allocates a measure
+//@   ensures result != nil && fresh(result)
+//@   modifies fresh
+//@ func (*go-text/fixedlen.Measure).Measure
+//@   trusted assumed: widens the measured column widths; touches only the measure
+//@   modifies m.size, m.size[*], fresh
+//@ func (*go-text/fixedlen.Measure).GeneratePositions
+//@   trusted assumed: delimiter positions from the measured widths
+//@   modifies fresh
+//@ func go-text/fixedlen.NewWriter
+//@   trusted assumed: allocates a writer
+//@   ensures result1 == nil ==> result0 != nil && fresh(result0)
+//@   modifies fresh
+//@ func (*go-text/fixedlen.Writer).Write
+//@   trusted assumed: writes one record (pads or refuses fields by the delimiter positions); ghost: counts the records handed to the writer
+//@   ensures fixedRecordsWritten == old(fixedRecordsWritten) + 1
+//@   modifies fixedRecordsWritten
+//@ func (*go-text/fixedlen.Writer).Flush
+//@   trusted assumed: flushes the buffered writer
+//@   modifies nothing
+//@ spec def rowTexts(fs []fixedlen.Field, view *View, k int, sci bool) bool = len(fs) == len(view.Header) && forall(c, 0, len(view.Header), fs[c].Contents == fieldText(view.RecordSet[k][c][0], sci))
+//@ spec def headerTexts(fs []fixedlen.Field, view *View) bool = len(fs) == len(view.Header) && forall(c, 0, len(view.Header), fs[c].Contents == view.Header[c].Column)
+//@ func encodeFixedLengthFormat
+//@   property C02
+//@   requires view != nil && forall(k, 0, len(view.RecordSet), len(view.RecordSet[k]) == len(view.Header) && forall(c, 0, len(view.Header), len(view.RecordSet[k][c]) >= 1))
+//@   ensures [success-means-header-and-every-record-written-measured] result == nil && old(options.DelimiterPositions) == nil ==> fixedRecordsWritten == old(fixedRecordsWritten) + len(view.RecordSet) + ite(options.WithoutHeader, 0, 1)
+//@   ensures [success-means-header-and-every-record-written-given-positions] result == nil && old(options.DelimiterPositions) != nil ==> fixedRecordsWritten == old(fixedRecordsWritten) + len(view.RecordSet) + ite(options.WithoutHeader || options.SingleLine, 0, 1)
+//@   assert after call (*go-text/fixedlen.Writer).Write#1: [line-k-is-the-kth-collected-row] fixedRecordsWritten == old(fixedRecordsWritten) + i@3 + 1 && (recordStartPos == 1 && i@3 == 0 ==> headerTexts(fieldList[0], view)) && (i@3 >= recordStartPos ==> rowTexts(fieldList[i@3], view, i@3 - recordStartPos, options.ScientificNotation))
+//@   assert after call (*go-text/fixedlen.Writer).Write#2: [header-is-the-column-names] fixedRecordsWritten == old(fixedRecordsWritten) + 1 && headerTexts(fields@3, view)
+//@   assert after call (*go-text/fixedlen.Writer).Write#3: [record-k-is-written-kth-cell-by-cell] fixedRecordsWritten == old(fixedRecordsWritten) + ite(options.WithoutHeader || options.SingleLine, 0, 1) + i@5 + 1 && rowTexts(fields@3, view, i@5, options.ScientificNotation)
+//@   loop 1 invariant 0 <= $i && $i <= len(view.Header) && len(fields@1) == len(view.Header) && fresh(fields@1) && forall(c, 0, $i, fields@1[c].Contents == view.Header[c].Column)
+//@   loop 1 modifies fields@1[*]
+//@   loop 2 invariant 0 <= $i && $i <= len(view.RecordSet) && fresh(fieldList) && len(fieldList) == len(view.RecordSet) + recordStartPos && fieldLen == len(view.Header) && fixedRecordsWritten == old(fixedRecordsWritten)
+//@   loop 2 invariant (recordStartPos == 0 && options.WithoutHeader) || (recordStartPos == 1 && !options.WithoutHeader && headerTexts(fieldList[0], view))
+//@   loop 2 invariant forall(k, 0, $i, rowTexts(fieldList[k + recordStartPos], view, k, options.ScientificNotation))
+//@   loop 2 modifies fresh, key:E:int#0
+//@   loop 3 invariant 0 <= $i && $i <= len(view.RecordSet[i@2]) && 0 <= i@2 && i@2 < len(view.RecordSet) && len(fields@2) == len(view.Header) && fresh(fields@2) && forall(c, 0, $i, fields@2[c].Contents == fieldText(view.RecordSet[i@2][c][0], options.ScientificNotation))
+//@   loop 3 modifies fields@2[*]
+//@   loop 4 invariant 0 <= $i && $i <= len(fieldList) && fixedRecordsWritten == old(fixedRecordsWritten) + $i && len(fieldList) == len(view.RecordSet) + recordStartPos
+//@   loop 4 invariant (recordStartPos == 0 && options.WithoutHeader) || (recordStartPos == 1 && !options.WithoutHeader && headerTexts(fieldList[0], view))
+//@   loop 4 invariant forall(k, 0, len(view.RecordSet), rowTexts(fieldList[k + recordStartPos], view, k, options.ScientificNotation))
+//@   loop 4 modifies fixedRecordsWritten
+//@   loop 5 invariant 0 <= $i && $i <= len(view.Header) && len(fields@3) == len(view.Header) && forall(c, 0, $i, fields@3[c].Contents == view.Header[c].Column) && fixedRecordsWritten == old(fixedRecordsWritten)
+//@   loop 5 modifies fields@3[*]
+//@   loop 6 invariant 0 <= $i && $i <= len(view.RecordSet) && len(fields@3) == len(view.Header) && fixedRecordsWritten == old(fixedRecordsWritten) + ite(options.WithoutHeader || options.SingleLine, 0, 1) + $i
+//@   loop 6 modifies fields@3[*], fixedRecordsWritten
+//@   loop 7 invariant 0 <= $i && $i <= len(view.RecordSet[i@5]) && 0 <= i@5 && i@5 < len(view.RecordSet) && len(fields@3) == len(view.Header) && forall(c, 0, $i, fields@3[c].Contents == fieldText(view.RecordSet[i@5][c][0], options.ScientificNotation))
+//@   loop 7 modifies fields@3[*]
+
+//@ ghost var ltsvRecordsWritten int
+//@ func go-text/ltsv.NewWriter
+//@   trusted assumed: allocates a writer that labels the fields of every record with the given header
+//@   ensures result1 == nil ==> result0 != nil && fresh(result0)
+//@   modifies fresh
+//@ func (*go-text/ltsv.Writer).Write
+//@   trusted assumed: writes one record as label:value pairs (refuses a tab, colon in a label, or line break it cannot spell); ghost: counts the records handed to the writer
+//@   ensures ltsvRecordsWritten == old(ltsvRecordsWritten) + 1
+//@   modifies ltsvRecordsWritten
+//@ func (*go-text/ltsv.Writer).Flush
+//@   trusted assumed: flushes the buffered writer
+//@   modifies nothing
+//@ func encodeLTSV
+//@   property C02
+//@   requires view != nil && forall(k, 0, len(view.RecordSet), len(view.RecordSet[k]) == len(view.Header) && forall(c, 0, len(view.Header), len(view.RecordSet[k][c]) >= 1))
+//@   ensures [success-means-every-record-written] result == nil ==> ltsvRecordsWritten == old(ltsvRecordsWritten) + len(view.RecordSet)
+//@   assert after call go-text/ltsv.NewWriter#1: [labels-are-the-column-names] len(hfields) == len(view.Header) && forall(c, 0, len(view.Header), hfields[c] == view.Header[c].Column)
+//@   assert after call (*go-text/ltsv.Writer).Write#1: [record-k-is-written-kth-cell-by-cell] ltsvRecordsWritten == old(ltsvRecordsWritten) + i@2 + 1 && len(fields) == len(view.Header) && forall(c, 0, len(view.Header), fields[c] == fieldText(view.RecordSet[i@2][c][0], options.ScientificNotation))
+//@   loop 1 invariant 0 <= $i && $i <= len(view.Header) && len(hfields) == len(view.Header) && fresh(hfields) && forall(c, 0, $i, hfields[c] == view.Header[c].Column)
+//@   loop 1 modifies hfields[*]
+//@   loop 2 invariant 0 <= $i && $i <= len(view.RecordSet) && len(fields) == len(view.Header) && ltsvRecordsWritten == old(ltsvRecordsWritten) + $i
+//@   loop 2 modifies fields[*], ltsvRecordsWritten
+//@   loop 3 invariant 0 <= $i && $i <= len(view.RecordSet[i@2]) && 0 <= i@2 && i@2 < len(view.RecordSet) && len(fields) == len(view.Header) && forall(c, 0, $i, fields[c] == fieldText(view.RecordSet[i@2][c][0], options.ScientificNotation))
+//@   loop 3 modifies fields[*]
+
+// JSON Lines: one encoded line per record, in record order; success means every record was encoded and written.
+//@ ghost var jsonRowsEncoded int
+//@ func (*go-text/json.Encoder).Encode
+//@   trusted assumed: renders one JSON structure as text; ghost: counts the structures encoded
+//@   ensures jsonRowsEncoded == old(jsonRowsEncoded) + 1
+//@   modifies jsonRowsEncoded
+//@ func json.ParsePathes
+//@   trusted assumed: parses the column names as JSON paths (memoised in a sync.Map of the package); touches no table
+//@   modifies fresh
+//@ func json.ConvertRecordValueToJsonStructure
+//@   trusted assumed: builds a fresh JSON object from the row; touches no table
+//@   modifies fresh
+//@ func go-text/json.NewEncoder
+//@   trusted assumed: allocates an encoder
+//@   ensures result != nil && fresh(result)
+//@   modifies fresh
+//@ func bufio.NewWriter
+//@   trusted assumed: allocates a buffered writer
+//@   ensures result != nil && fresh(result)
+//@   modifies fresh
+//@ func (*bufio.Writer).WriteString
+//@   trusted assumed: appends to the writer's buffer / the underlying stream
+//@   modifies * except F:query. E:query. E:value. F:value. F:option. F:parser. E:parser.
+//@ func (*bufio.Writer).Flush
+//@   trusted assumed: hands the buffer to the underlying stream
+//@   modifies * except F:query. E:query. E:value. F:value. F:option. F:parser. E:parser.
+//@ func (*go-text/color.Palette).Enable
+//@   trusted assumed: colour switch of the palette
+//@   modifies * except F:query. E:query. E:value. F:value. F:option. F:parser. E:parser.
+//@ func (*go-text/color.Palette).Disable
+//@   trusted assumed: colour switch of the palette
+//@   modifies * except F:query. E:query. E:value. F:value. F:option. F:parser. E:parser.
+//@ func encodeJsonLines
+//@   property C02
+//@   requires view != nil && forall(k, 0, len(view.RecordSet), len(view.RecordSet[k]) == len(view.Header) && forall(c, 0, len(view.Header), len(view.RecordSet[k][c]) >= 1))
+//@   ensures [success-means-every-record-encoded] result == nil ==> jsonRowsEncoded == old(jsonRowsEncoded) + len(view.RecordSet)
+//@   loop 1 invariant 0 <= $i && $i <= len(view.RecordSet) && len(row) == len(view.Header) && jsonRowsEncoded == old(jsonRowsEncoded) + $i
+//@   loop 2 invariant 0 <= $i && $i <= len(view.RecordSet[i]) && 0 <= i && i < len(view.RecordSet) && len(row) == len(view.Header) && forall(c, 0, $i, row[c] == view.RecordSet[i][c][0])
+
 // ---------------------------------------------------------------------------------------------
 // C12 / C13: outer join. A worker marks right-hand rows it matched in a flag list of its own and publishes its rows and
 // its flags only through the slots of its own index; afterwards a right-hand row is appended as unmatched only if no
